@@ -384,6 +384,13 @@ fn main() {
             let ok = g == vec![0.0, 0.0];
             report("case", "d7", "Dual2(2.0, [x,y], [1,2], [[2,3],[3,5]]).gradient1_manifold([y, w])[1].gradient1([y, w])", &format!("{:?}", g), "[0.0, 0.0]", ok);
         }
+        // finding D1: "fed" must be "nyc" without Good Friday
+        "d1" => {
+            let cal = rateslib::calendars::get_calendar_by_name("fed").unwrap();
+            let gf = ndt(1970, 3, 27);
+            let r = cal.is_holiday(&gf);
+            report("case", "d1", "get_calendar_by_name(\"fed\").is_holiday(1970-03-27)  [Good Friday 1970]", &format!("{}", r), "false", !r);
+        }
         "probe" => {
             let func = args.get(2).map(|s| s.as_str()).unwrap_or("");
             let found = probe_dateroll(func) || probe_months(func) || probe_dual::probe(func) || probe_curves::probe(func);
